@@ -100,6 +100,14 @@ func loggingClient(objs []client.Object, wl *writeLog, failAt map[int]string) cl
 			wl.Order = append(wl.Order, "update:"+kindOf(obj)+"/"+obj.GetName())
 			wl.Updated = append(wl.Updated, obj.DeepCopyObject().(client.Object))
 			f := fault()
+			// failAt[-1]: fault on the first main-resource Update of an ExtendedDaemonSet (the spec write
+			// that follows the status write), wherever it falls in the sequence
+			if sp, ok := failAt[-1]; ok && f == "" {
+				if _, isEds := obj.(*edsv1.ExtendedDaemonSet); isEds {
+					f = sp
+					delete(failAt, -1)
+				}
+			}
 			wl.mu.Unlock()
 			if f == "reject" {
 				return fmt.Errorf("injected")
@@ -310,6 +318,12 @@ func streamEdsReconcile(r *rand.Rand, i int, tier string) *Case {
 	}
 	eds.Status.ActiveReplicaSet = pick(r, "", "foo-a", "foo-b", "foo-c", "foo-gone")
 	eds.Status.Desired = int32(r.Intn(6))
+	// whatever an earlier reconcile left in the status: the next one must recompute every field
+	if r.Intn(2) == 0 {
+		eds.Status.Current, eds.Status.Ready, eds.Status.Available = int32(r.Intn(6)), int32(r.Intn(6)), int32(r.Intn(6))
+		eds.Status.UpToDate, eds.Status.IgnoredUnresponsiveNodes = int32(r.Intn(6)), int32(r.Intn(3))
+	}
+	eds.Status.Reason = edsv1.ExtendedDaemonSetStatusReason(pick(r, "", "", "CrashLoopBackOff", "OOMKilled", "ImagePullBackOff"))
 	if r.Intn(3) == 0 {
 		eds.Status.Canary = &edsv1.ExtendedDaemonSetStatusCanary{ReplicaSet: pick(r, "foo-a", "foo-b", "foo-c"), Nodes: []string{}}
 		for k := 0; k < 4; k++ {
@@ -322,6 +336,10 @@ func streamEdsReconcile(r *rand.Rand, i int, tier string) *Case {
 		edsv1.ExtendedDaemonSetStatusStateRunning, edsv1.ExtendedDaemonSetStatusStateCanary,
 		edsv1.ExtendedDaemonSetStatusStateCanaryFailed, edsv1.ExtendedDaemonSetStatusStateCanaryPaused,
 		edsv1.ExtendedDaemonSetStatusStateRollingUpdatePaused, edsv1.ExtendedDaemonSetStatusStateRolloutFrozen)
+	if r.Intn(4) == 0 {
+		eds.Status.Conditions = append(eds.Status.Conditions, edsv1.ExtendedDaemonSetCondition{Type: edsv1.ConditionTypeEDSCanaryFailed,
+			Status: pick(r, corev1.ConditionTrue, corev1.ConditionFalse), LastTransitionTime: mt(now.Add(-2 * time.Hour)), LastUpdateTime: mt(now.Add(-2 * time.Hour))})
+	}
 	if r.Intn(3) == 0 {
 		eds.Status.Conditions = append(eds.Status.Conditions, edsv1.ExtendedDaemonSetCondition{Type: edsv1.ConditionTypeEDSCanaryPaused,
 			Status: pick(r, corev1.ConditionTrue, corev1.ConditionFalse), LastTransitionTime: mt(now.Add(-time.Hour)), LastUpdateTime: mt(now.Add(-time.Hour))})
@@ -355,7 +373,11 @@ func streamEdsReconcile(r *rand.Rand, i int, tier string) *Case {
 	prerun := r.Intn(3) == 0
 	if prerun {
 		failAt = map[int]string{}
-		if r.Intn(4) != 0 {
+		switch r.Intn(4) {
+		case 0:
+		case 1:
+			failAt[-1] = pick(r, "reject", "reject", "lost")
+		default:
 			failAt[r.Intn(3)] = pick(r, "reject", "reject", "lost")
 		}
 	}
@@ -367,7 +389,7 @@ func streamEdsReconcile(r *rand.Rand, i int, tier string) *Case {
 		wl.mu.Lock()
 		wl.Order, wl.Created, wl.Deleted, wl.Updated, wl.Status, wl.Patched = nil, nil, nil, nil, nil, nil
 		wl.mu.Unlock()
-		for k := 0; k < 8; k++ { // no more faults
+		for k := -1; k < 8; k++ { // no more faults
 			delete(failAt, k)
 		}
 		time.Sleep(2 * time.Millisecond)
